@@ -126,6 +126,7 @@ Section SliceProof.
     slice arr start stop step = Ok (spec_slice arr start stop step).
   Proof.
     intros Hlen Hmin Hs. unfold slice, spec_slice.
+    destruct (i32_max <? zlen arr) eqn:Ebig; [lia|].
     destruct (zlen arr =? 0) eqn:E0.
     - assert (arr = []) as -> by (destruct arr; [reflexivity|unfold zlen in E0; cbn in E0; lia]).
       now rewrite select_nil_arr.
